@@ -1,7 +1,7 @@
 (* C01, F3 part: the lane functions of the multi-instruction SSE2 operations, written once in terms of the abstract
    primitives of [Ops] (the generated C01 lemmas prove, for all Ops, that the translated code applies exactly these functions
    to every lane), and their agreement with the Rust primitive in the IEEE instance. *)
-From Glam Require Import Base Sem FloorTrick.
+From Glam Require Import Base Sem FloorTrick RoundTricks.
 From Coq Require Import ZArith Bool Lia Reals ZifyBool.
 From Flocq Require Import Core BinarySingleNaN Binary Bits.
 Open Scope Z_scope.
@@ -114,3 +114,159 @@ Proof. intros v. split; [rewrite floor_lane_trick; apply floor_trick_correct | a
 (* the one integer fact the generated SSE2 lemmas assume about [Ops] (the literal !0x8000_0000u32) holds in the instance *)
 Lemma not_sign_std : i_1 OI U32 INot 2147483648 = Some 2147483647.
 Proof. vm_compute. reflexivity. Qed.
+
+(* ---- truncation and ceiling (src/sse2.rs m128_trunc, m128_ceil) *)
+Section Lane2.
+Variable O : Ops.
+Definition trunc_lane (v : F32 O) : F32 O :=
+  let test0 := f32_2 O FAnd v (f32_of_bits O 2147483647) in
+  let test := maskf O (i_cmp O ILt (bits_i32 O test0) (bits_i32 O (f32_of_bits O 1258291200))) in
+  let vint := f32_of_bits O (i_cast O I32 U32 (f32_cvtt_i32 O v)) in
+  let result := f32_of_i32 O (bits_i32 O vint) in
+  let r := f32_2 O FAnd result test in
+  let t2 := f32_2 O FAndNot test v in
+  f32_2 O FOr r t2.
+Definition ceil_lane (v : F32 O) : F32 O :=
+  let test0 := f32_2 O FAnd v (f32_of_bits O 2147483647) in
+  let test := maskf O (i_cmp O ILt (bits_i32 O test0) (bits_i32 O (f32_of_bits O 1258291200))) in
+  let vint := f32_of_bits O (i_cast O I32 U32 (f32_cvtt_i32 O v)) in
+  let result := f32_of_i32 O (bits_i32 O vint) in
+  let smaller := maskf O (f32_cmp O FLt result v) in
+  let smaller_f := f32_of_i32 O (bits_i32 O smaller) in
+  let result2 := f32_2 O FSub result smaller_f in
+  let r := f32_2 O FAnd result2 test in
+  let t2 := f32_2 O FAndNot test v in
+  f32_2 O FOr r t2.
+End Lane2.
+
+Lemma lt_cmp a b : cmp_of (b32_compare a b) FLt = lt a b.
+Proof. unfold lt. destruct (b32_compare a b) as [[| |]|]; reflexivity. Qed.
+
+Theorem trunc_lane_trick : forall v : binary32, trunc_lane OI v = trunc_trick v.
+Proof.
+  intros v. unfold trunc_lane, trunc_trick, maskf, bits_i32, OI, IEEEr, IEEE.
+  cbn [f32_2 f32_of_bits f32_to_bits f32_cmp f32_cvtt_i32 f32_of_i32 i_cast i_cmp f32_2s zi_cmp].
+  assert (T0 : bits_of_b32 (ofb32 (Z.land (bits_of_b32 v) (bits_of_b32 (ofb32 2147483647)))) = Z.land (tob v) 2147483647).
+  { rewrite (tob_ofb32 2147483647) by lia. apply tob_ofb32. pose proof (tob_range' v). unfold tob. apply land_range; lia. }
+  rewrite T0. rewrite (tob_ofb32 1258291200) by lia.
+  rewrite (wrap_i32 (Z.land (tob v) 2147483647)) by (pose proof (tob_range' v); unfold tob; apply land_range; lia).
+  rewrite (wrap_i32 1258291200) by lia. change (i32_of_u32 1258291200) with 1258291200.
+  set (tst := Z.ltb (i32_of_u32 (Z.land (tob v) 2147483647)) 1258291200).
+  rewrite cvtt32_cvtt. rewrite (tob_ofb32 (wrap U32 (cvtt v))) by apply wrap_u32_range.
+  rewrite (wrap_i32 (wrap U32 (cvtt v))) by apply wrap_u32_range. rewrite wrap_u32_of_i32 by apply cvtt_range.
+  change (norm32 (cvtt v) 0 false) with (of_i32 (cvtt v)). set (res := of_i32 (cvtt v)).
+  replace (bits_of_b32 (ofb32 (if tst then 4294967295 else 0))) with (mask tst) by (destruct tst; cbn [mask]; symmetry; apply tob_ofb32; lia).
+  rewrite (tob_ofb32 (Z.land (bits_of_b32 res) (mask tst))) by (pose proof (tob_range' res); pose proof (mask_range tst); apply land_range; lia).
+  assert (R2 : 0 <= Z.land (Z.lxor (mask tst) 4294967295) (bits_of_b32 v) < 4294967296).
+  { pose proof (tob_range' v). rewrite Z.land_comm. apply land_range; [lia|]. destruct tst; cbn; lia. }
+  rewrite (tob_ofb32 _ R2).
+  apply ofb32_ofb.
+  pose proof (tob_range' res) as Hr2. pose proof (tob_range' v) as Hv. unfold tob.
+  destruct tst; cbn [mask].
+  - change (Z.lxor 4294967295 4294967295) with 0. rewrite Z.land_0_l, Z.lor_0_r. apply land_range; lia.
+  - rewrite Z.land_0_r, Z.lor_0_l. change (Z.lxor 0 4294967295) with 4294967295. rewrite Z.land_comm. apply land_range; lia.
+Qed.
+
+Theorem ceil_lane_trick : forall v : binary32, ceil_lane OI v = ceil_trick v.
+Proof.
+  intros v. unfold ceil_lane, ceil_trick, maskf, bits_i32, OI, IEEEr, IEEE.
+  cbn [f32_2 f32_of_bits f32_to_bits f32_cmp f32_cvtt_i32 f32_of_i32 i_cast i_cmp f32_2s zi_cmp].
+  assert (T0 : bits_of_b32 (ofb32 (Z.land (bits_of_b32 v) (bits_of_b32 (ofb32 2147483647)))) = Z.land (tob v) 2147483647).
+  { rewrite (tob_ofb32 2147483647) by lia. apply tob_ofb32. pose proof (tob_range' v). unfold tob. apply land_range; lia. }
+  rewrite T0. rewrite (tob_ofb32 1258291200) by lia.
+  rewrite (wrap_i32 (Z.land (tob v) 2147483647)) by (pose proof (tob_range' v); unfold tob; apply land_range; lia).
+  rewrite (wrap_i32 1258291200) by lia. change (i32_of_u32 1258291200) with 1258291200.
+  set (tst := Z.ltb (i32_of_u32 (Z.land (tob v) 2147483647)) 1258291200).
+  rewrite cvtt32_cvtt. rewrite (tob_ofb32 (wrap U32 (cvtt v))) by apply wrap_u32_range.
+  rewrite (wrap_i32 (wrap U32 (cvtt v))) by apply wrap_u32_range. rewrite wrap_u32_of_i32 by apply cvtt_range.
+  change (norm32 (cvtt v) 0 false) with (of_i32 (cvtt v)). set (res := of_i32 (cvtt v)).
+  rewrite lt_cmp. set (lg := lt res v).
+  replace (bits_of_b32 (ofb32 (if lg then 4294967295 else 0))) with (mask lg) by (destruct lg; cbn [mask]; symmetry; apply tob_ofb32; lia).
+  rewrite (wrap_i32 (mask lg)) by apply mask_range.
+  change (norm32 (i32_of_u32 (mask lg)) 0 false) with (of_i32 (i32_of_u32 (mask lg))).
+  set (res2 := b32_minus mode_NE res (of_i32 (i32_of_u32 (mask lg)))).
+  replace (bits_of_b32 (ofb32 (if tst then 4294967295 else 0))) with (mask tst) by (destruct tst; cbn [mask]; symmetry; apply tob_ofb32; lia).
+  rewrite (tob_ofb32 (Z.land (bits_of_b32 res2) (mask tst))) by (pose proof (tob_range' res2); pose proof (mask_range tst); apply land_range; lia).
+  assert (R2 : 0 <= Z.land (Z.lxor (mask tst) 4294967295) (bits_of_b32 v) < 4294967296).
+  { pose proof (tob_range' v). rewrite Z.land_comm. apply land_range; [lia|]. destruct tst; cbn; lia. }
+  rewrite (tob_ofb32 _ R2).
+  apply ofb32_ofb.
+  pose proof (tob_range' res2) as Hr2. pose proof (tob_range' v) as Hv. unfold tob.
+  destruct tst; cbn [mask].
+  - change (Z.lxor 4294967295 4294967295) with 0. rewrite Z.land_0_l, Z.lor_0_r. apply land_range; lia.
+  - rewrite Z.land_0_r, Z.lor_0_l. change (Z.lxor 0 4294967295) with 4294967295. rewrite Z.land_comm. apply land_range; lia.
+Qed.
+
+Lemma rint_spec (md : mode) (fop : fop1) (spec : binary32 -> binary32) :
+  (forall v, f32_1 OI fop v = rint32 md v) -> (forall v, spec v = Bnearbyint 24 128 (refl_equal _) (fun _ => nan1) md v) ->
+  forall v, feq (f32_1 OI fop v) (spec v).
+Proof.
+  intros H1 H2 v. rewrite H1, H2. unfold rint32.
+  destruct v as [s|s|s pl H|s m e H].
+  - right. unfold isnan, b32_compare. destruct s, md; repeat split; reflexivity.
+  - right. unfold isnan, b32_compare. destruct s, md; repeat split; reflexivity.
+  - left. unfold isnan. split; reflexivity.
+  - set (x := B754_finite 24 128 s m e H).
+    destruct (Bnearbyint_correct 24 128 (refl_equal _) unop_nan_pl32 md x) as (R1 & F1 & _).
+    destruct (Bnearbyint_correct 24 128 (refl_equal _) (fun _ => nan1) md x) as (R2 & F2 & _).
+    apply feq_of_R; [rewrite F1; reflexivity|rewrite F2; reflexivity|rewrite R1, R2; reflexivity].
+Qed.
+
+Theorem trunc_lane_correct : forall v : binary32, feq (trunc_lane OI v) (spec_trunc v) /\ feq (f32_1 OI FTrunc v) (spec_trunc v).
+Proof. intros v. split; [rewrite trunc_lane_trick; apply trunc_trick_correct | apply (rint_spec mode_ZR FTrunc spec_trunc); reflexivity]. Qed.
+Theorem ceil_lane_correct : forall v : binary32, feq (ceil_lane OI v) (spec_ceil v) /\ feq (f32_1 OI FCeil v) (spec_ceil v).
+Proof. intros v. split; [rewrite ceil_lane_trick; apply ceil_trick_correct | apply (rint_spec mode_UP FCeil spec_ceil); reflexivity]. Qed.
+
+(* ---- round half away from zero (src/sse2.rs m128_round after the repair) *)
+Section Lane3.
+Variable O : Ops.
+Definition round_lane (v : F32 O) : F32 O :=
+  let r := trunc_lane O v in
+  let d := f32_2 O FSub v r in
+  let frac := f32_2 O FAnd d (f32_of_bits O 2147483647) in
+  let away := maskf O (f32_cmp O FGe frac (f32_of_bits O 1056964608)) in
+  let one := f32_2 O FOr (f32_2 O FAnd v (f32_of_bits O 2147483648)) (f32_of_bits O 1065353216) in
+  f32_2 O FAdd r (f32_2 O FAnd away one).
+End Lane3.
+
+Lemma ge_cmp a b : cmp_of (b32_compare a b) FGe = ge a b.
+Proof. unfold ge. destruct (b32_compare a b) as [[| |]|]; reflexivity. Qed.
+Lemma log2_lt32 a : 0 <= a < 4294967296 -> Z.log2 a < 32.
+Proof. intros H. destruct (Z.eq_dec a 0) as [->|N]; [reflexivity|]. apply Z.log2_lt_pow2; [lia|]. change (2 ^ 32) with 4294967296. lia. Qed.
+Lemma lor_range a b : 0 <= a < 4294967296 -> 0 <= b < 4294967296 -> 0 <= Z.lor a b < 4294967296.
+Proof. intros Ha Hb. assert (N : 0 <= Z.lor a b) by (apply Z.lor_nonneg; lia). split; [exact N|].
+  destruct (Z.eq_dec (Z.lor a b) 0) as [E|E]; [rewrite E; lia|]. change 4294967296 with (2 ^ 32). apply Z.log2_lt_pow2; [lia|].
+  rewrite Z.log2_lor by lia. apply Z.max_lub_lt; apply log2_lt32; assumption. Qed.
+
+Theorem round_lane_trick : forall v : binary32, round_lane OI v = round_trick v.
+Proof.
+  intros v. unfold round_lane, round_trick. rewrite trunc_lane_trick. set (r := trunc_trick v).
+  unfold maskf, OI, IEEEr, IEEE. cbn [f32_2 f32_of_bits f32_to_bits f32_cmp f32_2s].
+  rewrite (tob_ofb32 2147483647) by lia. rewrite (tob_ofb32 2147483648) by lia. rewrite (tob_ofb32 1065353216) by lia.
+  set (d := b32_minus mode_NE v r).
+  assert (Ea : ofb32 (Z.land (bits_of_b32 d) 2147483647) = ofb (Z.land (tob d) 2147483647)). { apply ofb32_ofb. pose proof (tob_range' d). unfold tob. apply land_range; lia. }
+  rewrite Ea. rewrite (ofb32_ofb 1056964608) by lia. rewrite ge_cmp.
+  set (m := ge (ofb (Z.land (tob d) 2147483647)) (ofb 1056964608)).
+  replace (bits_of_b32 (ofb32 (if m then 4294967295 else 0))) with (mask m) by (destruct m; cbn [mask]; symmetry; apply tob_ofb32; lia).
+  assert (Rs : 0 <= Z.land (bits_of_b32 v) 2147483648 < 4294967296) by (pose proof (tob_range' v); apply land_range; lia).
+  rewrite (tob_ofb32 _ Rs).
+  assert (Ro : 0 <= Z.lor (Z.land (bits_of_b32 v) 2147483648) 1065353216 < 4294967296) by (apply lor_range; lia).
+  rewrite (tob_ofb32 _ Ro). rewrite (Z.lor_comm (Z.land (bits_of_b32 v) 2147483648)).
+  f_equal. set (X := Z.lor 1065353216 (Z.land (bits_of_b32 v) 2147483648)).
+  assert (RX : 0 <= X < 4294967296) by (unfold X; rewrite Z.lor_comm; exact Ro).
+  assert (TX : bits_of_b32 (ofb X) = X) by (rewrite <- (ofb32_ofb X RX); apply tob_ofb32; exact RX).
+  unfold tob. fold X. rewrite TX. apply ofb32_ofb. pose proof (mask_range m). apply land_range; lia.
+Qed.
+
+Theorem round_lane_correct : forall v : binary32, feq (round_lane OI v) (spec_round v) /\ feq (f32_1 OI FRound v) (spec_round v).
+Proof. intros v. split; [rewrite round_lane_trick; apply round_trick_correct | apply (rint_spec mode_NA FRound spec_round); reflexivity]. Qed.
+
+(* ---- known deviation (recorded in known_findings.json, C01): the SSE2 `%` of Vec3A / Vec4 is a - floor(a / b) * b per lane, which is not the
+   Rust primitive (the truncated IEEE remainder fmod).  Witness: -1 % 3 is 2 instead of -1. *)
+Definition rem_floored (a b : binary32) : binary32 := f32_2 OI FSub a (f32_2 OI FMul (floor_lane OI (f32_2 OI FDiv a b)) b).
+Lemma rem_floored_refuted : exists a b : binary32, ~ feq (rem_floored a b) (f32_2 OI FRem a b).
+Proof.
+  exists (ofb 3212836864), (ofb 1077936128).      (* -1.0, 3.0: the floored form gives 2.0, fmod gives -1.0 *)
+  intros [[H _]|[_ [_ H]]]; vm_compute in H; discriminate H.
+Qed.
+Eval vm_compute in (tob (rem_floored (ofb 3212836864) (ofb 1077936128)), tob (f32_2 OI FRem (ofb 3212836864) (ofb 1077936128))).
